@@ -58,7 +58,7 @@ fn check_query(label: &str, query: &str, args: &[(&str, FieldValue)], failures: 
     c
 }
 
-// @grid c05_grid_required_properties tier=quick bound="every numbers query of the corpus (repository valid queries + 20 extra shapes) and 14 query shapes: outputs, filters, same-component tags, tags used only inside a fold / a nested fold / an optional scope / a fold-count filter, fold-count tags, __typename, recursion and coercion"
+// @grid c05_grid_required_properties tier=quick bound="[+ seeded random accepted documents, VERIF_SEED] every numbers query of the corpus (repository valid queries + 20 extra shapes) and 14 query shapes: outputs, filters, same-component tags, tags used only inside a fold / a nested fold / an optional scope / a fold-count filter, fold-count tags, __typename, recursion and coercion"
 // @ob every resolve_property(type, name) call the engine makes for a vertex names a property listed by resolve_info.required_properties() for that vertex
 pub(crate) fn c05_grid_required_properties() {
     let mut failures = BTreeSet::new();
@@ -86,7 +86,7 @@ pub(crate) fn c05_grid_required_properties() {
         n += 1;
     }
     // the same contract on every numbers query of the corpus (repository queries + extra shapes)
-    for case in crate::verif_corpus::corpus() {
+    for case in crate::verif_corpus::corpus_with_random(200, 5) {
         if case.schema_name != "numbers" || crate::verif_corpus::compile(&case).is_none() { continue; }
         let args: Vec<(&str, FieldValue)> = case.arguments.iter().map(|(k, v)| (k.as_ref(), v.clone())).collect();
         let accepted = crate::interpreter::InterpretedQuery::from_query_and_arguments(crate::verif_corpus::compile(&case).unwrap(), Arc::new(case.arguments.clone())).is_ok();
